@@ -105,6 +105,9 @@ TExtract == /\ IsEvent("Extract")
             /\ Consumed >= 0
             /\ ExtractWith(FsOf, Consumed, AllocOk, EofNow)
             /\ Chk("extract.res", IF FirstDecode THEN Ev.res = ExtractResult(FsOf, AllocOk) ELSE TRUE)
+            \* what a successful first extraction of a file wrote is the member's contents (logged where the driver reads the file back)
+            /\ Chk("extract.file", (Has("file") /\ FirstDecode /\ Ev.res /\ r.ctype = "NORMAL" /\ arc[r.cur].kind = "file")
+                                    => Ev.file = arc[r.cur].data)
             /\ ProjOK
             /\ UNCHANGED <<heap, files>>
 
